@@ -130,20 +130,30 @@ ShortDivMod(a, b) ==
     ELSE LET k == Len(b) - 1
          IN NatDivModR(a, b, Len(a) - k, NatNorm(SubSeq(a, Len(a) - k + 1, Len(a))), <<>>)
 
+\* n (the integer part of the scaled value, then rounded) times 2^ue as a double
+Pack(n, ue) == IF n = <<>> THEN LitZero
+               ELSE IF NatBitLen(n) + ue > 1024 THEN LitInf
+               ELSE OddPart(n, ue)
+RoundUp(q, more, half) == IF more \/ (half /\ NatIsOdd(q)) THEN NatAdd(q, <<1>>) ELSE q
+\* bit k (0-based) of a natural
+NatBit(a, k) == (Limb(a, k \div BBits + 1) \div Pow2Small(k % BBits)) % 2 = 1
+
 \* the double nearest to N / D (naturals, both > 0), ties to even
 RoundNatRatio(N, D) ==
     LET e0 == NatBitLen(N) - NatBitLen(D)
         ge == IF e0 >= 0 THEN NatCmp(N, NatShl(D, e0)) >= 0 ELSE NatCmp(NatShl(N, -e0), D) >= 0
         E == IF ge THEN e0 ELSE e0 - 1                  \* 2^E <= N/D < 2^(E+1)
         ue == IF E - 52 < -1074 THEN -1074 ELSE E - 52  \* exponent of the unit in the last place
-        num == IF ue >= 0 THEN N ELSE NatShl(N, -ue)
-        den == IF ue >= 0 THEN NatShl(D, ue) ELSE D
-        qr == ShortDivMod(num, den)
-        c2 == NatCmp(NatMulSmall(qr[2], 2), den)
-        n == IF c2 > 0 \/ (c2 = 0 /\ NatIsOdd(qr[1])) THEN NatAdd(qr[1], <<1>>) ELSE qr[1]
-    IN IF n = <<>> THEN LitZero
-       ELSE IF NatBitLen(n) + ue > 1024 THEN LitInf
-       ELSE OddPart(n, ue)
+    IN IF D = <<1>> /\ ue > 0
+       THEN \* an integer: shift, the bit below the unit decides with the bits below it as tie-breaker
+            LET hb == NatBit(N, ue - 1)
+                sticky == NatLowBitsNonZero(N, ue - 1)
+            IN Pack(RoundUp(NatShr(N, ue), hb /\ sticky, hb /\ ~sticky), ue)
+       ELSE LET num == IF ue >= 0 THEN N ELSE NatShl(N, -ue)
+                den == IF ue >= 0 THEN NatShl(D, ue) ELSE D
+                qr == ShortDivMod(num, den)
+                c2 == NatCmp(NatMulSmall(qr[2], 2), den)
+            IN Pack(RoundUp(qr[1], c2 > 0, c2 = 0), ue)
 
 \* the exact rational a decimal literal spells:  digits(is ++ fs) * 10^(+-es - Len(fs))
 \* (far out of range literals are classified by magnitude bounds instead of being evaluated;
